@@ -15,6 +15,11 @@ def _regen_tl_cost_table():
     from ..translate import tl_cost
     return tl_cost.regenerate()
 
+def _regen_boc_parser():
+    from ..translate import boccells
+    return boccells.regenerate()
+
+
 SPEC = dict(
     manifest=dict(
         category='proof',
@@ -48,7 +53,10 @@ SPEC = dict(
              'and maximal sharing) plus a 2 s wall-clock cap per call; also compared: cell order, len(to_boc), number of sha256 objects and '
              'bytes hashed while constructing a DAG (= one per hashed level per DISTINCT cell), dictionary entries returned = entries '
              'counted by the model, side conditions of c19_tl_total on every table sent to the driver. C-level costs (bytes slicing '
-             'cells_data[i:], hashing, bitarray) are visible only through the line-count proxy and the wall-clock cap.',
+             'cells_data[i:], hashing, bitarray) are visible only through the line-count proxy and the wall-clock cap. '
+             'SOURCE TIE of the BoC parser (c19_src_parse, c19_src_loop_iterations): the three loops of Boc.deserialize, deserialize_cell and the header parser are regenerated from '
+             'deserialize.py on every run as Py.loop? folds over range(cells_num), reversed(range(cells_num)), root_list (one body execution per element at most) and proved equal to '
+             'Model/BocParse.lean, whose recursions Model/Cost.lean transcribes as counters; that the COUNTERS of bocCost equal the iteration counts of the regenerated loops is not proved.',
         level_note='Trusted: Lean kernel (propext, Classical.choice, Quot.sound); Model/Cost.lean as a hand transcription of the loops of '
                    'cell.py (order, to_boc, __init__/calculate_hashes), deserialize.py, hashmap/parse.py, tl/generator.py (upper-bound '
                    'convention: validity failures that only cut work short are not modelled); harness/translate/tl_cost.py + TlEnv (the bundled '
@@ -57,7 +65,9 @@ SPEC = dict(
                    'harness.',
         technique='Lean 4 proof about a step-counting model + measured work inequality (sys.monitoring line counts) against the library',
     ),
-    translators=[('bundled tl schemas->Generated/TlCostTable.lean', _regen_tl_cost_table)],
+    translators=[('bundled tl schemas->Generated/TlCostTable.lean', _regen_tl_cost_table),
+                 ('deserialize.py deserialize_boc_header, deserialize_cell, deserialize->Generated/BocHeader.lean, BocCells.lean', _regen_boc_parser)],
+    lean_targets=['TonVerif.Proofs.SrcBocDeser'],
     design_ref='DESIGN.md §6 C19',
     rule='one case = one public call on one adversarial input with its model step count; families: double/triple-ref chains 10..1000, '
          'depth-1023 chains, diamonds, wide sharing, random DAGs (order, to_boc x flag sets, from_boc, construction); BoC byte strings '
